@@ -46,8 +46,17 @@ func (b *builder) desc() string { return descPool[b.r.Below(len(descPool))] }
 
 func (b *builder) floatVal() float64 {
 	pool := []float64{0, 1, -1, 0.5, 0.1, 2, 10, 100, -40, 273.15, 0.001, 1e6, 3.75, -0.25, 65535}
+	if b.r.Chance(1, 5) { // boundaries: 2^31, 2^32, 2^53, 2^63, 2^64, 1e19 and negatives
+		b.tag("float-boundary")
+		pool = []float64{2147483647, 2147483648, 4294967295, 4294967296, 9007199254740992, 9223372036854775807,
+			9223372036854775808, 18446744073709551615, 18446744073709551616, 1e19, 1e-9,
+			-2147483649, -9007199254740992, -9223372036854775808, -1e19}
+	}
 	return pool[b.r.Below(len(pool))]
 }
+
+var boundaryInts = []int{-9223372036854775807, -9007199254740992, -4294967296, -2147483649, -2147483648, -1, 0, 1,
+	2147483647, 2147483648, 4294967295, 4294967296, 9007199254740992, 9223372036854775807}
 
 func (b *builder) makeAttributes() {
 	n := b.r.Below(7)
@@ -60,7 +69,15 @@ func (b *builder) makeAttributes() {
 		case 1:
 			mn := b.r.Below(100) - 50
 			mx := mn + b.r.Below(1000)
-			a, err := acmelib.NewIntegerAttribute(name, mn+b.r.Below(mx-mn+1), mn, mx)
+			def := mn + b.r.Below(mx-mn+1)
+			if b.r.Chance(1, 3) { // bounds at 2^31, 2^32, 2^53, 2^63-1 and negatives
+				i := b.r.Below(len(boundaryInts) - 1)
+				j := i + 1 + b.r.Below(len(boundaryInts)-i-1)
+				mn, mx = boundaryInts[i], boundaryInts[j]
+				def = boundaryInts[i+b.r.Below(j-i+1)]
+				b.tag("attr-int-boundary")
+			}
+			a, err := acmelib.NewIntegerAttribute(name, def, mn, mx)
 			if err == nil {
 				b.atts = append(b.atts, a)
 				b.tag("attr-int")
@@ -68,6 +85,14 @@ func (b *builder) makeAttributes() {
 		case 2:
 			mn := b.r.Below(50)
 			mx := mn + b.r.Below(70000)
+			if b.r.Chance(1, 4) {
+				mx = []int{2147483647, 2147483648, 4294967295}[b.r.Below(3)]
+				b.tag("attr-hex-boundary")
+			}
+			if b.r.Chance(1, 12) { // a hex attribute with a negative lower bound (not a uint32)
+				mn = -1 - b.r.Below(5)
+				b.tag("attr-hex-negative-min")
+			}
 			a, err := acmelib.NewIntegerAttribute(name, mn+b.r.Below(mx-mn+1), mn, mx)
 			if err == nil {
 				a.SetFormatHex()
@@ -116,7 +141,16 @@ func (b *builder) assignSome(e assignable, kind string) {
 			v = []string{"", "v", "some text"}[b.r.Below(3)]
 		case acmelib.AttributeTypeInteger:
 			ia, _ := a.ToInteger()
-			v = ia.Min() + b.r.Below(ia.Max()-ia.Min()+1)
+			if span := ia.Max() - ia.Min(); span > 0 && span < 1<<40 {
+				v = ia.Min() + b.r.Below(span+1)
+			} else { // huge range: a boundary value inside it
+				v = ia.Min()
+				for _, c := range boundaryInts {
+					if c >= ia.Min() && c <= ia.Max() && b.r.Chance(1, 3) {
+						v = c
+					}
+				}
+			}
 		case acmelib.AttributeTypeFloat:
 			fa, _ := a.ToFloat()
 			f := fa.Min() + float64(b.r.Below(int(fa.Max()-fa.Min())))
@@ -162,7 +196,42 @@ func (b *builder) makePools() {
 			b.types = append(b.types, t)
 		}
 	}
-	for _, sym := range []string{"km/h", "degC", "%", "", "m s"} {
+	// natural 64-bit types and twins of a custom type that differ in exactly one field
+	if b.r.Chance(1, 3) {
+		if t, err := acmelib.NewIntegerSignalType(b.name("u64_t"), 64, b.r.Chance(1, 2)); err == nil {
+			b.types = append(b.types, t)
+			b.tag("type-64bit")
+		}
+	}
+	if b.r.Chance(1, 2) {
+		size, signed := 1+b.r.Below(12), b.r.Chance(1, 2)
+		mn, mx, sc, of := b.floatVal(), b.floatVal(), b.floatVal(), b.floatVal()
+		if base, err := acmelib.NewCustomSignalType(b.name("base_t"), size, signed, mn, mx, sc, of); err == nil {
+			b.types = append(b.types, base)
+			for k := 1 + b.r.Below(3); k > 0; k-- {
+				s2, g2, mn2, mx2, sc2, of2 := size, signed, mn, mx, sc, of
+				switch b.r.Below(6) {
+				case 0:
+					s2++
+				case 1:
+					g2 = !g2
+				case 2:
+					mn2 = mn2 - 1
+				case 3:
+					mx2 = mx2 + 1
+				case 4:
+					sc2 = sc2 * 2
+				default:
+					of2 = of2 + 3
+				}
+				if tw, err := acmelib.NewCustomSignalType(b.name("twin_t"), s2, g2, mn2, mx2, sc2, of2); err == nil {
+					b.types = append(b.types, tw)
+					b.tag("type-twin")
+				}
+			}
+		}
+	}
+	for _, sym := range []string{"km/h", "degC", "%", "", "m s", " ", " km/h ", "x "} {
 		if b.r.Chance(1, 2) {
 			b.units = append(b.units, acmelib.NewSignalUnit(b.name("unit"), acmelib.SignalUnitKindCustom, sym))
 		}
